@@ -23,7 +23,7 @@ def batch(batch_size):
     def _batch(acc, i):
         b = [] if acc[1] is True else acc[0]
         b.append(i)
-        return (b, len(b) == batch_size)
+        return (b, bool(len(b) == batch_size))
 
     def _terminate(acc):
         # emit only a non-empty batch that has not been emitted yet
